@@ -1,7 +1,9 @@
 """C20 — deprecating a class keeps identifiers and makes old results reachable."""
 FUNCS = ["ObjectType.deprecate", "fix_deprecated"]
 LEVEL = "proof"
-TRUSTED = []
+LEVEL_TEXT = "Deductive: ObjectType.deprecate swaps the type identifier for the parent's and keeps the former one; fix_deprecated never calls rmtree, unlinks only symlinks, renames only with fix and cleanup, links only with fix and without cleanup, changes nothing without fix/cleanup. Bounded: identifiers of graphs with deprecated classes; repair of workspaces in states fresh/linked/dangling/other. Known finding: repaired task directory keeps the old marker names."
+TRUSTED = ['load_job / recomputed identifier = C01/C12', 'z3 5.1 / cvc5 1.0.3 / z3 4.8.12 and the VC generator pyvc (validated by seeded changes, pre-fix replays and the CPython replay of counterexamples; not verified)', 'Python semantics of DESIGN 2.3 (mathematical ints and reals, left-to-right evaluation, no monkey-patching, assert not compiled out)', 'heap typing: declared field/parameter classes are assumed on reads and checked on writes in the functions under contract', "contracts of externals and of callees outside the list are assumed; every ('ASSUME', ...) clause is listed in DESIGN section 11"]
+LEVEL_NOTE = 'load_job / recomputed identifier = C01/C12'
 
 from bounded.wire import run_c20
 BOUNDED = [("deprecated identifiers and repair command on workspaces", run_c20)]
